@@ -43,12 +43,15 @@ def bufnode_scenarios(ln, nsuccs, accs, per_query):
 
 BOPS = 'TGRLCX'
 def bufnode_pick(seqs, nsucc, accs):
-    """hand-picked sequences ('T' + rest): one query each"""
+    """hand-picked sequences ('T' + rest): one query each; a sequence using op A (late successor) is numbered in base 7"""
     out = []
     for q in seqs:
         assert q[0] == 'T'
-        k = sum(BOPS.index(c) * 6 ** i for i, c in enumerate(q[1:]))
-        out.append({'LEN': len(q), 'NSUCC': nsucc, 'ACCS': ','.join(accs), 'FROM': k, 'CNT': 1})
+        base = 7 if 'A' in q else 6
+        k = sum((BOPS + 'A').index(c) * base ** i for i, c in enumerate(q[1:]))
+        sc = {'LEN': len(q), 'NSUCC': nsucc, 'ACCS': ','.join(accs), 'FROM': k, 'CNT': 1}
+        if base == 7: sc['BASE'] = 7
+        out.append(sc)
     return out
 def _seq_ops():
     q = []
@@ -71,6 +74,9 @@ JOIN_QUICK = ['1,2,6', '1,1,2,6,2,6', '2,2,1,6,1,6', '1,2,6,7,1,2,7', '1,1,2,2,6
 LIM_QUICK = [(1, '1,1,21,1'), (2, '1,1,1,22,1,1'), (1, '51,1,1'), (2, '1,52,1,1'), (2, '53,1,1,1'), (1, '1,23,1,1'), (3, '1,1,1,1,23,1,1,1'), (1, '20,1,1'),
              (1, '4,3,3,21,3'), (2, '4,3,3,3,22,3'), (2, '1,4,22,3,1'), (1, '4,1,3,21,3'), (2, '4,3,1,3,21')]
 PRIO_QUICK = [('TTTTGG', '0'), ('TTTGGG', '0'), ('TTTXG', '1'), ('TTRTLG', '0'), ('TTTRCG', '0'), ('TTXTXG', '3')]
+# a reserver (try_reserve ... try_consume/try_release) next to an accepting push successor; 0-2 puts arrive during the reservation, the forwarder
+# task that was pending runs (and gives up) WHILE reserved, so that only the end of the reservation can restart forwarding
+RSV_SEQS = ['TRXC', 'TRXL', 'TRTXC', 'TRTXL', 'TRTTXC', 'TRTTXL', 'TXRTXL', 'TXRTXC', 'TRAXL', 'TRTAXC', 'TRTXAXC', 'TRXAXL', 'TXAX']   # A: a second push successor registers during the reservation
 BUF_QUICK = ['TTXG', 'TRXLX', 'TRGC', 'TTRGCG', 'TRCTX', 'TXTXG', 'TTTTTXG', 'TRLG', 'TXRTCX', 'TTXGGG']
 
 AGGCUT = ['E7executeINS1_19aggregating_functorI']   # aggregator_generic<Op>::execute<aggregating_functor<Node,Op>>
@@ -223,6 +229,27 @@ HARNESSES = [
        bounds={'threads': 2, 'free_rounds': 1, 'forced_rounds': 2, 'memory_model': 'SC', 'threshold': 2, 'predecessor': 'one message', 'successor': 'refuses the first pulled offer, accepts later',
                'cut': 'spin_mutex / spin_rw_mutex lock operations -> abstract locks (parking callers; the locks are C08), forwarder-task constructor (= a task exists), spawn_in_graph_arena, '
                       'std::deque slow paths (asserted unreachable); created forwarder tasks are counted, not executed'}),
+  dict(name='queue_node_reserver', unit='queuenode', harness='h_bufnode.c', cbmc=['--unwind', '40'] + FS, defines={'KIND': 1},
+       scenarios=bufnode_pick(RSV_SEQS, 1, ['255', '254']),
+       desc='queue_node<int> with two successors of different kind: an accepting push successor S and a reserver (the harness calls try_reserve / try_consume / try_release); 0-2 further puts '
+            'arrive during the reservation and the pending forwarder task runs (and gives up) while the item is reserved; after the end of the reservation (consume / release) and the '
+            'forwarder tasks it must restart, no message stays buffered although S accepts (each delivered to S exactly once, in arrival order), forwarder_busy and my_reserved are clear',
+       bounds={'sequences': '12 hand-picked (reserve; 0-2 puts and/or a second push successor registering; forwarder run(s); consume | release), also with a first offer refused before the reservation', 'push successor': 'accepts everything / refuses the first offer',
+               'message values': 'symbolic, pairwise distinct'}, timeout=400),
+  dict(name='buffer_node_reserver', unit='bufnode', harness='h_bufnode.c', cbmc=['--unwind', '40'] + FS, defines={'KIND': 0},
+       scenarios=bufnode_pick(RSV_SEQS, 1, ['255', '254']),
+       desc='buffer_node<int> with two successors of different kind: an accepting push successor S and a reserver (the harness calls try_reserve / try_consume / try_release); 0-2 further puts '
+            'arrive during the reservation and the pending forwarder task runs (and gives up) while the item is reserved; after the end of the reservation (consume / release) and the '
+            'forwarder tasks it must restart, no message stays buffered although S accepts (each delivered to S exactly once, any order), forwarder_busy and my_reserved are clear',
+       bounds={'sequences': '12 hand-picked (reserve; 0-2 puts and/or a second push successor registering; forwarder run(s); consume | release), also with a first offer refused before the reservation', 'push successor': 'accepts everything / refuses the first offer',
+               'message values': 'symbolic, pairwise distinct'}, timeout=400),
+  dict(name='priority_queue_node_reserver', unit='prionode', harness='h_bufnode.c', cbmc=['--unwind', '40'] + FS, defines={'KIND': 2},
+       scenarios=bufnode_pick(RSV_SEQS, 1, ['255', '254']),
+       desc='priority_queue_node<int> with two successors of different kind: an accepting push successor S and a reserver (the harness calls try_reserve / try_consume / try_release); 0-2 further puts '
+            'arrive during the reservation and the pending forwarder task runs (and gives up) while the item is reserved; after the end of the reservation (consume / release) and the '
+            'forwarder tasks it must restart, no message stays buffered although S accepts (each delivered to S exactly once, highest priority first), forwarder_busy and my_reserved are clear',
+       bounds={'sequences': '12 hand-picked (reserve; 0-2 puts and/or a second push successor registering; forwarder run(s); consume | release), also with a first offer refused before the reservation', 'push successor': 'accepts everything / refuses the first offer',
+               'message values': 'symbolic, pairwise distinct'}, timeout=400),
   dict(name='buffer_node', unit='bufnode', harness='h_bufnode.c', cbmc=['--unwind', '40'] + FS, defines={'KIND': 0},
        scenarios_quick=bufnode_pick(BUF_QUICK, 1, ['0', '1', '2']) + bufnode_pick(BUF_QUICK[:4], 2, ['2', '5']),
        scenarios_thorough=bufnode_scenarios(4, [1, 2], ['0', '1', '2', '5'], 2) + [dict(sc, LEN=5, FROM=6 * sc['FROM']) for sc in bufnode_scenarios(4, [1], ['0', '1', '2', '7'], 1)],
